@@ -78,6 +78,31 @@ def regenerate(which):
     return rc == 0, out
 
 
+DRIVER_GENS = ["wire", "wiredisc", "classify", "adapter"]   # generated modules the compiled driver imports (through Model/*)
+
+
+def gen_deps(modules):
+    """Extractor names of the generated modules the given Lean modules import, transitively."""
+    seen, todo = set(), list(modules)
+    while todo:
+        m = todo.pop()
+        f = os.path.join(LEAN, m.replace(".", "/") + ".lean")
+        if not os.path.exists(f):
+            continue
+        for i in re.findall(r"^import (TSSVerif[\w.]*)", open(f, encoding="utf-8").read(), flags=re.M):
+            if i not in seen:
+                seen.add(i)
+                todo.append(i)
+    return sorted(x.split(".")[-1].lower() for x in seen if ".Gen." in x)
+
+
+def committed_gen(name):
+    """The committed snapshot (translation of the pinned tree) of a generated module, or None."""
+    rel = "lean/TSSVerif/Gen/" + {"boxconsts": "BoxConsts", "wiredisc": "WireDisc"}.get(name, name.capitalize()) + ".lean"
+    rc, out = run(["git", "-C", VERIF, "show", "HEAD:" + rel])
+    return (os.path.join(VERIF, rel), out) if rc == 0 and out.strip() else None
+
+
 def lake_build(targets):
     rc, out = run(["lake", "build"] + list(targets), cwd=LEAN)
     errs = [l for l in out.splitlines() if l.startswith("error:")]
@@ -290,12 +315,35 @@ class Check:
                 self.broken.append("build: harness/extractor does not build from /repo")
                 self.proof_ok = False
                 return False
-            ok, log = regenerate(gen)
+            # everything this property's modules import is regenerated (never a stale file of an earlier run on
+            # another tree), and so is what the shared driver imports
+            own = sorted(set(gen) | set(gen_deps(modules)))
+            foreign = [g for g in DRIVER_GENS if g not in own] if extra_targets else []
+            ok, log = regenerate(own)
             self.log(log.strip())
             if not ok:
                 self.broken.append("extractor failed: " + log.strip()[-300:])
                 self.proof_ok = False
+            if foreign:
+                regenerate(foreign)
             okb, out, errs = lake_build(list(modules) + list(extra_targets))
+            if not okb and foreign:
+                # a generated module that this property's model does not import may have stopped building (a change
+                # in code another property models): the driver then uses the committed translation of it, so that this
+                # property is decided on its own model and tie
+                restored = []
+                for g in foreign:
+                    snap = committed_gen(g)
+                    if snap and open(snap[0], encoding="utf-8").read() != snap[1]:
+                        open(snap[0], "w", encoding="utf-8").write(snap[1])
+                        restored.append(g)
+                if restored:
+                    okb2, out2, errs2 = lake_build(list(modules) + list(extra_targets))
+                    if okb2:
+                        okb, out, errs = okb2, out2, errs2
+                        self.log("note: generated module(s) " + ", ".join(restored) + " (not imported by this property's model) "
+                                 "do not build on this tree; the shared driver uses their committed translation")
+                        self.notes.append("driver built with the committed translation of: " + ", ".join(restored))
         names = []
         for m in modules:
             f = os.path.join(LEAN, m.replace(".", "/") + ".lean")
